@@ -31,3 +31,11 @@ def run(tier):
 
 
 replay = oc.generic_replay
+
+
+META = {
+    'technique': 'TLC-enumerated timelines x parameters of Ops1.tla transducers (reference-checked in the model) replayed on the real operators on TestScheduler',
+    'level': 'Ops1.tla states each element-wise operator twice (streaming transducer and list reference; TLC checks they agree on every enumerated timeline, plus grammar/release/causality invariants) and exports every scenario with its expected timed output and source-unsubscription instant; each is run on the real operator with hot and cold sources under three index-to-time maps and must match on values, instants, terminal kind and unsubscription instant. Exhaustive for the stated bounds.',
+    'note': 'TLC 1.8; value/function codec of props/ops1_common.py; TestScheduler (verified by C28)',
+    'ref': 'DESIGN.md 6 C05, App. C',
+}
